@@ -93,6 +93,14 @@ CHECKS = {
         "plain `group` must print identical report bodies; hook events count the cache hits (vacuity guard).",
    note="precondition read as 'content is a function of (mtime ms, length) per file over the history' (see DESIGN.md 5.0)",
    tech="TLC model checking of the cache design + randomized history replay (cached vs uncached) on the real binary"),
+ "C15": dict(cat="model_checking", sec="5 C15",
+   text="GroupFaults.tla is a functional model of the staged pipeline (size, prefix, suffix, contents; permissive filter between stages, strict at the end; pass-through of single-id and short groups) "
+        "with read failures at any stage; TLC checks for every input of the small universe that the report equals the report of the tree without the failed files (Isolated) and, without faults, the "
+        "filtered content partition (Complete). On the real binary a calibration run lists every stat/open/n-th read/opendir/n-th readdir/extent query per path; one run per (path, call, ordinal, "
+        "EACCES/EIO/ENOENT) and sampled pairs is compared with a fault-free run on the same tree without the entry; exit status and warnings are checked; a two-run --transform --cache scenario "
+        "covers a read failing inside the transform program.",
+   note="reference = same tree with the entry deleted; single hashing thread for reproducible ordinals; group shapes compared (the printed hash of a pass-through singleton may differ)",
+   tech="TLC model checking of the staged pipeline with faults + syscall fault enumeration on the real binary (differential against the fault-free run)"),
 }
 
 def main():
